@@ -169,7 +169,26 @@ def run_model_lines(mode, lines, d, tag):
     return vf.by_id(vf.run_model(mode, cf))
 
 
-def run_impl_surviving(mode, lines, d, tag, env=None, max_crashes=12, timeout=600):
+def run_impl_limited(mode, casefile, env, timeout, address_space=6 << 30):
+    """like vf.run_impl, with the address space of the child capped: a decoder that allocates a length field read from the
+    file (DESIGN.md §7 D8) then fails at once instead of filling the memory of the machine"""
+    import resource
+    import subprocess
+    e = dict(os.environ)
+    e.update({'ZINOMA_VERIF': mode, 'ZINOMA_VERIF_CASES': casefile, 'RUST_BACKTRACE': '0'})
+    if env:
+        e.update(env)
+
+    def limit():
+        resource.setrlimit(resource.RLIMIT_AS, (address_space, address_space))
+    try:
+        p = subprocess.run([vf.ZINOMA], env=e, timeout=timeout, stdout=subprocess.PIPE, stderr=subprocess.PIPE, preexec_fn=limit)
+        return p.returncode, p.stdout.decode('utf-8', 'replace').splitlines(), p.stderr.decode('utf-8', 'replace')
+    except subprocess.TimeoutExpired as x:
+        return -9, (x.stdout or b'').decode('utf-8', 'replace').splitlines(), 'timeout'
+
+
+def run_impl_surviving(mode, lines, d, tag, env=None, max_crashes=12, timeout=300):
     """Runs the case lines through the real implementation. If the process dies on a case (abort: no result line), that
     case is recorded as crashed and the remaining cases are run in a fresh process.
     Returns (results by id, [(case line, return code, stderr tail)])."""
@@ -181,7 +200,7 @@ def run_impl_surviving(mode, lines, d, tag, env=None, max_crashes=12, timeout=60
         cf = os.path.join(d, 'impl_%s_%d.txt' % (tag, k))
         k += 1
         write_cases(cf, todo)
-        rc, out, err = vf.run_impl(mode, cf, env=env, timeout=timeout)
+        rc, out, err = run_impl_limited(mode, cf, env, timeout)
         got = vf.by_id(out)
         results.update(got)
         missing = [l for l in todo if l.split(' ')[1] not in got]
@@ -285,7 +304,7 @@ def gen_dup_env(rng):
     return e
 
 
-def codec_check(ck, d, n_records, n_prefix_records, n_corrupt_per_record, n_random):
+def codec_check(ck, d, n_records, n_prefix_records, n_corrupt_per_record, n_random, n_xcheck=8):
     """model enc -> real read path -> real serialize -> model dec; real decode vs model dec on valid, truncated (every strict
     prefix) and corrupted streams. Returns nothing; reports through ck."""
     rng = ck.rng
@@ -336,6 +355,9 @@ def codec_check(ck, d, n_records, n_prefix_records, n_corrupt_per_record, n_rand
             'decoded by Codec.dec_env; streams: valid, valid+trailing bytes, EVERY strict prefix, corrupted (length fields '
             '2^k-1 / +-n, tags, nanos>=10^9, carry overflow, invalid UTF-8, bit flips, insertions, deletions), duplicate keys, '
             'random bytes, corpus (D8, D7, pinned-format file); non-trivial = distinct byte strings')
+    good = [b for (kind, _, b, _) in cases.values() if kind in ('valid', 'trailing', 'dupkeys') and len(b) < 700]
+    bad = [b for (kind, _, b, _) in cases.values() if kind in ('corrupt', 'corpus') and len(b) < 700]
+    coq_crosscheck(ck, d, good[:n_xcheck // 2] + bad[:n_xcheck - n_xcheck // 2])
     crashed_ids = {}
     for (line, rc, err) in crashes:
         crashed_ids[line.split(' ')[1]] = (rc, err)
@@ -644,6 +666,9 @@ def gen_history(rng, bias='edits', length=None):
            ('W', b'q/val.txt', b'w0\n'), ('W', b'q/in.txt', b'in0\n'), ('W', b'q/gen/x.o', b'obj0'), ('W', b'q/gen/readme', b'r')]
     if rng.random() < 0.5:
         ops.append(('G', b'p/src/big.c', rng.choice([1024, 1500, 4000]), rng.randrange(1000)))
+    if flavour == 'noinput' and rng.random() < 0.7:
+        # the record a target leaves when it once declared inputs that listed no file (or any other empty record): DESIGN.md §7 D7
+        ops.append(('W', b'p/.zinoma/always.checksums', rng.choice([bytes(16) + b'\x01' + bytes(16), bytes(17)])))
     in_pool = [b'p/src/a.c', b'p/src/b.h', b'p/src/deep/c.c', b'p/src/notes.txt', b'p/src/big.c', b'q/in.txt', b'q/gen/x.o']
     new_pool = [b'p/src/new.c', b'p/src/deep/er/n.h', b'p/src/x.txt', b'q/gen/y.o', b'p/src/caf\xc3\xa9.c', b'p/src/.zinoma/z.c']
     odd_pool = [b'p/src/latin1-\xe9.c', b'p/out/\xff\xfe.bin']
@@ -838,8 +863,8 @@ def evaluate_histories(ck, hists, scratch_root, rc, err, index, order, model, de
         t = h['targets'][op[1]]
         tk = (hid, op[1])
         base = {'kind': 'incremental-history', 'history_id': hid, 'invocation': cid, 'target': op[1], 'layout': h['flavour'],
-                'history': describe_history(h),
-                'replay': 'ZINOMA_VERIF=incr ZINOMA_VERIF_SCRATCH=<dir> on the case lines in `case_lines`',
+                'history': describe_history(h), 'history_literal': repr(h),
+                'replay': './check <property> --replay <this file>  (or: ZINOMA_VERIF=incr ZINOMA_VERIF_SCRATCH=<dir> on the case lines in `case_lines`)',
                 'case_lines': history_lines(hid, h)}
         if v is None:
             rep = dict(base)
@@ -1202,6 +1227,7 @@ def bb_signal_case(d, name, sig, with_old_record):
         rc, out, err = zinoma_run(root, ['t'])
         log.append(('zinoma t', rc, err))
         open(os.path.join(root, 'src', 'a.txt'), 'w').write('v2 changed\n')
+        os.utime(os.path.join(root, 'src', 'a.txt'), ns=(1800000000 * 10 ** 9, 1800000000 * 10 ** 9 + 7))
     n0 = len(open(os.path.join(root, 'trace')).read().splitlines())
     os.mkfifo(os.path.join(root, 'gate'))
     e = dict(os.environ)
@@ -1407,6 +1433,10 @@ def c18_run_sequence(root, ops, paths):
     def write(rel):
         version[0] += 1
         open(os.path.join(root, rel), 'w').write('%s v%d\n' % (rel, version[0]))
+        # the mtime is set, not taken from the clock: strictly increasing with the version, so that no verdict depends on the
+        # timestamp granularity of the file system
+        t = (1700000000 + version[0] * 10) * 10 ** 9 + version[0]
+        os.utime(os.path.join(root, rel), ns=(t, t))
     for f in C18_FILES:
         write(f)
 
@@ -1432,6 +1462,7 @@ def c18_run_sequence(root, ops, paths):
     for op in ops:
         before = states()
         base = {'kind': 'c18-sequence', 'root_zinoma_yml': C18_ROOT_YML, 'lib_zinoma_yml': C18_LIB_YML, 'sequence_so_far': trace + [op],
+                'sequence_literal': repr(ops),
                 'replay': 'create the two projects with files %r (any distinct contents), then replay `sequence_so_far`: run = `zinoma -p <entry> <arg>`, '
                           'clean = `zinoma -p <entry> --clean <arg>`, cleanall = `zinoma -p <entry> --clean`, edit = rewrite the file' % C18_FILES}
         if op[0] == 'edit':
@@ -1573,3 +1604,85 @@ def check_histories_parallel(ck, d, batches, props, workers=4):
         vf.sh(['rm', '-rf', os.path.join(d, 'trees_' + tag)])
     with concurrent.futures.ThreadPoolExecutor(max_workers=workers) as ex:
         list(ex.map(work, batches))
+
+
+# ================================================================================================ extraction cross-check
+def coq_crosscheck(ck, d, samples):
+    """The extracted OCaml decoder/encoder vs the same Gallina terms evaluated by `vm_compute` inside Coq, on sampled byte strings
+    (DESIGN.md §3: extraction is itself differentially checked)."""
+    lines = ['X x%d %s' % (i, hx(b)) for i, b in enumerate(samples)]
+    ocaml = run_model_lines('codec', lines, d, 'xcheck')
+    vfile = os.path.join(d, 'cases.v')
+    with open(vfile, 'w') as f:
+        f.write('From Zinoma.Model Require Import Bytes Codec.\n')
+        f.write('Definition xeval (bs : bytes) : option (bytes * nat) :=\n'
+                '  match dec_env bs with Some (e, rest) => Some (enc_env e, length rest) | None => None end.\n')
+        for b in samples:
+            f.write('Eval vm_compute in (xeval [%s]).\n' % '; '.join(str(x) for x in b))
+    rc, out, err = vf.sh(['timeout', '600', 'coqc', '-noglob', '-Q', vf.COQ, 'Zinoma', vfile], cwd=d, timeout=700)
+    if rc != 0:
+        report(ck, {'kind': 'extraction-crosscheck', 'what': 'coqc failed on the generated cases.v', 'log': (out + err)[-1500:]}, False)
+        return
+    blocks = [b for b in re.split(r'^\s+= ', out, flags=re.M)[1:]]
+    if len(blocks) != len(samples):
+        report(ck, {'kind': 'extraction-crosscheck', 'what': 'cannot parse coqc output (%d blocks for %d samples)' % (len(blocks), len(samples))}, False)
+        return
+    for i, (b, blk) in enumerate(zip(samples, blocks)):
+        body = blk.split(': option')[0]
+        if body.strip().startswith('None'):
+            coq = 'x none'
+        else:
+            nums = [int(x) for x in re.findall(r'\d+', body)]
+            coq = 'x %s %d' % (hx(bytes(nums[:-1])), nums[-1])
+        ck.tally('xcheck:' + ('none' if coq == 'x none' else 'some'))
+        ck.count(('xcheck', b), impl=False)
+        if ocaml.get('x%d' % i) != coq:
+            report(ck, {'kind': 'extraction-crosscheck', 'bytes': b.hex(), 'extracted_ocaml': ocaml.get('x%d' % i), 'coq_vm_compute': coq,
+                        'what': 'the extracted runner and vm_compute inside Coq disagree on Codec.dec_env / enc_env'}, False)
+    ck.rule('xcheck: Codec.dec_env / enc_env evaluated by the extracted OCaml runner and by `Eval vm_compute` inside Coq on sampled byte strings')
+
+
+# ================================================================================================ replay of one recorded case
+def replay_file(ck, path, fallback):
+    """./check Cxx --replay FILE: re-runs the recorded case (history, state file, C18 sequence) on the current code and model."""
+    import ast
+    import json
+    try:
+        r = json.load(open(path))
+    except Exception:
+        return fallback(ck)
+    d = vf.scratch_dir(ck.prop + '_replay')
+    kind = r.get('kind')
+    if kind == 'incremental-history' and 'history_literal' in r:
+        h = ast.literal_eval(r['history_literal'])
+        ck.rule('replay of one recorded history through mode incr and the model')
+        check_histories(ck, d, {'replay': h}, 'replay', (ck.prop,))
+    elif kind == 'state-file-codec' and 'state_file_hex' in r:
+        b = bytes.fromhex(r['state_file_hex'])
+        ck.rule('replay of one recorded state file through the real read path and Codec.dec_env')
+        lines = ['D r0 %s' % hx(b)]
+        model = run_model_lines('codec', lines, d, 'rp')
+        impl, crashes = run_impl_surviving('codec', lines, d, 'rp', env={'ZINOMA_VERIF_SCRATCH': os.path.join(d, 'codec_tree')})
+        ck.count(('replay', b), sample={'bytes': b.hex(), 'model': model.get('r0'), 'impl': impl.get('r0')})
+        m, i = model.get('r0'), impl.get('r0')
+        rep = dict(r)
+        rep.update({'model_now': m, 'implementation_now': i})
+        if crashes or i is None or i == 'PANIC':
+            rep['what'] = 'reading this state file still kills zinoma'
+            report(ck, rep, True)
+        elif (m or '').split(' ')[0] != i.split(' ')[0]:
+            rep['what'] = 'model and implementation still differ on this state file'
+            report(ck, rep, False)
+    elif kind == 'c18-sequence' and 'sequence_literal' in r:
+        ops = ast.literal_eval(r['sequence_literal'])
+        ck.rule('replay of one recorded C18 invocation sequence on the real binary')
+        lines = ['P %s %s %s %s' % (k.replace('::', '__'), hx(t[1].encode()), '-' if t[2] is None else hx(t[2]), hx(t[3])) for k, t in C18_TARGETS.items()]
+        m = run_model_lines('incr', lines, d, 'c18_paths')
+        paths = dict((k, bytes.fromhex(m[k.replace('::', '__')].split('path=')[1]).decode().lstrip('/')) for k in C18_TARGETS)
+        problems = c18_run_sequence(os.path.join(d, 'seq'), ops, paths)
+        ck.count(('c18', tuple(ops)), sample={'sequence': [' '.join(str(x) for x in o) for o in ops], 'problems': len(problems)})
+        for rep, found in problems[:3]:
+            report(ck, rep, found)
+    else:
+        return fallback(ck)
+    flush(ck)
